@@ -76,7 +76,7 @@ func (e *Engine) contiguityGuard(at ssa.Instruction, claim ssa.Value, hx string)
 }
 
 func runC01(e *Engine, r *Report, tier string) {
-	r.Explanation = "C01, structural clauses only. Decided (D): R1 the last observed event nonce (family 0x24) is written outside genesis only with claim.GetEventNonce() of a claim for which the guard `!att.Observed && claim.nonce == get(0x24)+1` dominates; R2 that write and the persisted Observed=true dominate the event-handler dispatch, and the dispatch is reachable from entry points only through the tally function; R3 the vote recorder is guarded by `claim.nonce == get(0x23,oracle)+1` (mismatch -> error) and writes 0x23 := claim.nonce on every success path; R4 0x23 is written only by the vote recorder/genesis and, since it can be deleted, the vote append is guarded by a not-yet-voted test; R5 a parked claim (0x54) is deleted before any handler effect, keyed by the looked-up nonce, written only by the dispatcher under the claim's own nonce; R6 every ExternalClaim implementer is dispatched; R7 the per-oracle nonce (0x23) is deleted only under a dominating test that it is not ahead of the last observed nonce (0x24), so an oracle that re-bonds cannot vote again for a pending nonce. Not decided (—): quorum arithmetic (C02), effects of each event (C04), behaviour under concrete interleavings (the rules are path-universal instead)."
+	r.Explanation = "C01, structural clauses only. Decided (D): R1 the last observed event nonce (family 0x24) is written outside genesis only with claim.GetEventNonce() of a claim for which the guard `!att.Observed && claim.nonce == get(0x24)+1` dominates; R2 that write and the persisted Observed=true dominate the event-handler dispatch, and the dispatch is reachable from entry points only through the tally function; R3 the vote recorder is guarded by `claim.nonce == get(0x23,oracle)+1` (mismatch -> error) and writes 0x23 := claim.nonce on every success path; R4 0x23 is written only by the vote recorder/genesis and, since it can be deleted, the vote append is guarded by a not-yet-voted test; R5 a parked claim (0x54) is deleted before any handler effect, keyed by the looked-up nonce, written only by the dispatcher under the claim's own nonce; R6 every ExternalClaim implementer is dispatched; R7 the per-oracle nonce (0x23) is deleted only under a dominating test that it is not ahead of the last observed nonce (0x24), so an oracle that re-bonds cannot vote again for a pending nonce; R8 genesis import rebuilds 0x23 from every attestation and vote, conditional only on the running maximum (not on the last observed nonce). Not decided (—): quorum arithmetic (C02), effects of each event (C04), behaviour under concrete interleavings (the rules are path-universal instead)."
 	r.Trusted = []string{"go/ssa dominance", "key-family resolution by prefix byte", "ExternalClaim accessors (GetEventNonce) are pure getters"}
 	r.Assumptions = []string{"transactions are atomic (a failing Msg handler's writes are discarded by the SDK)"}
 
@@ -85,6 +85,7 @@ func runC01(e *Engine, r *Report, tier string) {
 	r.Rule("R3", "vote recorder: per-oracle contiguity guard dominates vote append; 0x23 written on every success path", 2, "callers of writers of crosschain:23")
 	r.Rule("R4", "writers/deleters of 0x23 closed; vote append guarded by not-yet-voted when 0x23 can be deleted", 2, "writers of crosschain:23")
 	r.Rule("R7", "0x23 deleted only when it is not ahead of the last observed nonce (no pending vote is forgotten)", 1, "deleters of crosschain:23")
+	r.Rule("R8", "genesis import rebuilds 0x23 from every attestation and vote (no selection by the last observed nonce)", 1, "genesis-time writer calls of crosschain:23")
 	r.Rule("R5", "pending claim 0x54 deleted before handler effects; written only by the dispatcher keyed by the claim's nonce", 3, "writers/deleters of crosschain:54")
 	r.Rule("R6", "every ExternalClaim implementer is dispatched by the attestation handler; parked kinds by the executor", 6, "implementers of types.ExternalClaim")
 
@@ -418,6 +419,47 @@ func runC01(e *Engine, r *Report, tier string) {
 	}
 	if len(del23) == 0 {
 		r.Ok("R7", "no deleter", "", "0x23 is never deleted in transaction-reachable code")
+	}
+
+	// ---------- R8: genesis import rebuilds every oracle's nonce from every vote ----------
+	// 0x23 is not exported; InitGenesis rebuilds it as the highest nonce among the attestations an oracle voted for. The rebuild
+	// may be conditional on that maximum only: skipping attestations by comparing their nonce with the last observed one loses
+	// the record of an oracle whose newest vote is at or below it (the fallback is lastObserved-1, and moves), so the oracle can
+	// vote again for a nonce it voted, or skip one.
+	n8 := 0
+	for _, w := range w23 {
+		for _, cs := range e.CallSites(w) {
+			if isAuxPkg(fnPkgPath(cs.Caller)) || !isGenesisOrUpgrade(cs.Caller) {
+				continue
+			}
+			n8++
+			ck := e.CanonFnKey(cs.Caller) + " rebuild(0x23)"
+			bad := ""
+			for _, g := range GuardsOf(cs.Call) {
+				ci, ok := NormCond(g)
+				if !ok {
+					continue
+				}
+				for _, v := range []ssa.Value{ci.X, ci.Y} {
+					if v == nil {
+						continue
+					}
+					_, r24 := e.valueReadsFamily(v, cc, "24")
+					_, r23 := e.valueReadsFamily(v, cc, "23")
+					if r24 && !r23 {
+						bad = "a comparison with the last observed event nonce (0x24)"
+					}
+				}
+			}
+			if bad != "" {
+				r.Fail("R8", ck, e.InstrPos(cs.Call), "the per-oracle nonce is rebuilt only for attestations selected by "+bad+": an oracle whose newest vote is not above it loses its record across export/import and can vote twice for, or skip, an event nonce")
+			} else {
+				r.Ok("R8", ck, e.InstrPos(cs.Call), "rebuilt from every attestation and vote (conditional only on the running maximum)")
+			}
+		}
+	}
+	if n8 == 0 {
+		r.Fail("R8", "genesis rebuild", "", "UNRESOLVED-ANCHOR: no genesis-time writer call of 0x23")
 	}
 
 	// ---------- R5 ----------
